@@ -1465,6 +1465,43 @@ Proof.
     + split; [exact Hn|]. intros y Hy. right. now apply Hi.
 Qed.
 
+(* ---- the task lists through the phases *)
+Lemma report_value_tasks : forall x from h st st', report_value g x from h st = Ok st' -> same_tasks st st'.
+Proof.
+  intros x from h st st' H. unfold report_value in H.
+  destruct (is_chan g x); simpl in H; [|discriminate].
+  destruct (g_dag g).
+  - destruct (ch_skipped (rs_chans st x)).
+    + now destruct (close_all_spec _ _ _ _ H) as (_ & Ht & _).
+    + destruct (is_data_pred_g g from x); inversion H; subst; now split.
+  - inversion H; subst. now split.
+Qed.
+
+Lemma phase2_tasks : forall l st st', phase2 g l st = Ok st' -> same_tasks st st'.
+Proof.
+  induction l as [|[[c t] r] l IH]; simpl; intros st st' H.
+  - inversion H; subst. apply same_tasks_refl.
+  - bind_ok H st1 H1. eapply same_tasks_trans; [|eapply IH; exact H].
+    unfold update_one in H1. bind_ok H1 st0 H0. destruct (close_all_spec _ _ _ _ H0) as (_ & Ht0 & _).
+    eapply same_tasks_trans; [exact Ht0|]. clear -H1. revert st0 H1.
+    induction (u_chan (update_values t (r_writes r))) as [|[x h] ws IHw]; simpl; intros st0 H1.
+    + inversion H1; subst. apply same_tasks_refl.
+    + bind_ok H1 st2 H2. eapply same_tasks_trans; [eapply report_value_tasks; exact H2|eapply IHw; exact H1].
+Qed.
+
+Lemma get_ready_pending : forall xs st ready st',
+  get_ready g xs st = Ok (ready, st') ->
+  rs_pending st' = rs_pending st ++ map fst ready /\ rs_resolved st' = rs_resolved st.
+Proof.
+  induction xs as [|x xs IH]; simpl; intros st ready st' H.
+  - inversion H; subst. simpl. now rewrite app_nil_r.
+  - bind_ok H r1 H1. destruct r1 as [oh st1]. bind_ok H r2 H2. destruct r2 as [l st2].
+    inversion H; subst ready st'; clear H. destruct (IH _ _ _ H2) as (Hp2 & Hr2).
+    destruct (chan_get_eff g _ _ _ _ H1) as [(-> & -> & _)|(h & -> & _ & Hp1 & Hr1 & _)].
+    + split; assumption.
+    + rewrite Hp2, Hr2, Hp1, Hr1. simpl. now rewrite <- app_assoc.
+Qed.
+
 Lemma nlist_get_split : forall (A : Type) k (l : list (N * A)) v,
   NoDup (map fst l) -> nlist_get k l = Some v ->
   Permutation l ((k, v) :: filter (fun kh => negb (N.eqb (fst kh) k)) l).
@@ -1847,26 +1884,73 @@ Proof.
     + intros y Hy. rewrite Ho by tauto. apply Hoth1. intros ->. apply Hy. now left.
 Qed.
 
-Lemma resolve_phases_pregel : forall b I st st',
-  all_empty st -> Acc g I st -> NoDup (map fst b) ->
-  resolve_phases g b st = Ok st' ->
-  Acc g I st' /\ (forall y, ~ In y (chan_keys g) -> forall p, In p (all_keys g) -> ch_vals (rs_chans st' y) p = None).
+Lemma phase1_tasks_pregel : forall b st l st', phase1 g b st = Ok (l, st') -> same_tasks st st'.
 Proof.
-  intros b I st st' Hemp HA HndB H. unfold resolve_phases in H.
+  induction b as [|[k outs] b IH]; simpl; intros st l st' H.
+  - inversion H; subst. apply same_tasks_refl.
+  - destruct (call_of g k) as [c|]; [|discriminate]. bind_ok H t Ht.
+    destruct (fresh (rs_store st)) as [out s1] eqn:Ef.
+    bind_ok H r1 H1. destruct r1 as [rv st1]. bind_ok H r2 H2. destruct r2 as [l2 st2]. inversion H; subst.
+    eapply same_tasks_trans; [|eapply IH; exact H2]. unfold resolve_one in H1.
+    bind_ok H1 r0 H0. bind_ok H1 s2 Hs2. bind_ok H1 st3 H3. bind_ok H1 st4 H4. inversion H1; subst.
+    apply report_branch_pregel in H3. subst st3.
+    destruct (close_all_spec _ _ _ _ H4) as (_ & Hts & _). exact Hts.
+Qed.
+
+Lemma phase2_vals_frame : forall l st st' y p,
+  phase2 g l st = Ok st' -> ~ In p (map node_of l) -> ch_vals (rs_chans st' y) p = ch_vals (rs_chans st y) p.
+Proof.
+  induction l as [|[[c t] r] l IH]; simpl; intros st st' y p H Hp.
+  - inversion H; subst. reflexivity.
+  - bind_ok H sta Ha. rewrite (IH _ _ y p H (fun Hin => Hp (or_intror Hin))).
+    apply (update_one_frame g _ _ _ _ Ha). intros E. apply Hp. left. unfold node_of. simpl. now rewrite E.
+Qed.
+
+(* the batch-free precondition: no channel holds a value written by a task of the batch *)
+Lemma resolve_phases_pregel : forall b I st st',
+  (forall y p, In p (map fst b) -> ch_vals (rs_chans st y) p = None) ->
+  Acc g I st -> NoDup (map fst b) ->
+  resolve_phases g b st = Ok st' ->
+  Acc g I st' /\
+  (forall y, ~ In y (chan_keys g) -> forall p, ch_vals (rs_chans st' y) p = ch_vals (rs_chans st y) p) /\
+  (forall y p, ~ In p (map fst b) -> ch_vals (rs_chans st' y) p = ch_vals (rs_chans st y) p) /\
+  rs_pending st' = remove_keys (map fst b) (rs_pending st).
+Proof.
+  intros b I st st' Hfree HA HndB H. unfold resolve_phases in H.
   bind_ok H r1 H1. destruct r1 as [l st1]. bind_ok H st2 H2. bind_ok H st3 H3. inversion H; subst st'; clear H.
   destruct (phase1_acc g Hnd Hend _ _ _ _ _ HA H1) as (HA1 & Hel & Hnodes).
   pose proof (phase1_pregel _ _ _ _ H1) as Hc1.
-  assert (Hin : forall e, In e l -> In (node_of e) (all_keys g)).
-  { intros [[c t] r] He. rewrite Forall_forall in Hel. destruct (Hel _ He) as (Hc & _).
-    eapply nlist_get_in. exact Hc. }
   assert (Hnone : forall e, In e l -> forall y, ch_vals (rs_chans st1 y) (node_of e) = None).
-  { intros e He y. rewrite Hc1. apply Hemp. now apply Hin. }
+  { intros e He y. rewrite Hc1. apply Hfree. rewrite <- Hnodes. now apply in_map. }
   assert (HndN : NoDup (map node_of l)) by (rewrite Hnodes; exact HndB).
   pose proof (phase2_acc g Hnd Hend _ _ _ _ HA1 Hel HndN Hnone H2) as HA2.
-  destruct (phase3_acc g _ _ _ _ HA2 H3) as (HA3 & _ & Hv3).
-  split; [exact HA3|].
-  intros y Hy p Hp. change (rs_chans (mark_resolved (map fst b) st3) y) with (rs_chans st3 y).
-  rewrite Hv3. rewrite (phase2_out _ _ _ _ H2 Hy). rewrite Hc1. now apply Hemp.
+  destruct (phase3_acc g _ _ _ _ HA2 H3) as (HA3 & [Hp3 _] & Hv3).
+  destruct (phase2_tasks g _ _ _ H2) as [Hp2 _]. destruct (phase1_tasks_pregel _ _ _ _ H1) as [Hp1 _].
+  split; [exact HA3|]. split; [|split].
+  - intros y Hy p. change (rs_chans (mark_resolved (map fst b) st3) y) with (rs_chans st3 y).
+    rewrite Hv3. rewrite (phase2_out _ _ _ _ H2 Hy). now rewrite Hc1.
+  - intros y p Hp. change (rs_chans (mark_resolved (map fst b) st3) y) with (rs_chans st3 y).
+    rewrite Hv3. rewrite <- Hc1. apply (phase2_vals_frame _ _ _ _ _ H2). now rewrite Hnodes.
+  - simpl. now rewrite Hp3, Hp2, Hp1.
+Qed.
+
+Lemma calc_body_pregel_gen : forall b I st ready st4,
+  (forall y p, In p (map fst b) -> ch_vals (rs_chans st y) p = None) ->
+  (forall y, ~ In y (chan_keys g) -> forall p, In p (all_keys g) -> ch_vals (rs_chans st y) p = None) ->
+  Acc g I st -> NoDup (map fst b) ->
+  calc_body g b st = Ok (ready, st4) ->
+  all_empty st4 /\ Acc g (map snd ready ++ I) st4 /\ NoDup (map fst ready) /\
+  rs_pending st4 = remove_keys (map fst b) (rs_pending st) ++ map fst ready.
+Proof.
+  intros b I st ready st4 Hfree Hout HA HndB H. unfold calc_body in H. bind_ok H st3 H3. rename H into H4.
+  destruct (resolve_phases_pregel _ _ _ _ Hfree HA HndB H3) as (HA3 & Hout3 & _ & Hp3).
+  pose proof (get_ready_acc g Hnd Hend _ _ _ _ _ HA3 (incl_refl _) H4) as HA4.
+  destruct (get_ready_keys g _ _ _ _ (chan_keys_nodup g Hnd Hend) H4) as (Hrn & Hri).
+  destruct (get_ready_empty _ _ _ _ (chan_keys_nodup g Hnd Hend) H4) as (He4 & Ho4).
+  destruct (get_ready_pending g _ _ _ _ H4) as (Hp4 & _).
+  split; [|split; [exact HA4|split; [exact Hrn|now rewrite Hp4, Hp3]]].
+  intros y p Hp. destruct (in_dec N.eq_dec y (chan_keys g)) as [Hy|Hy]; [now apply He4|].
+  rewrite (Ho4 y Hy). rewrite (Hout3 y Hy). now apply Hout.
 Qed.
 
 Lemma calc_body_pregel : forall b I st ready st4,
@@ -1874,14 +1958,13 @@ Lemma calc_body_pregel : forall b I st ready st4,
   calc_body g b st = Ok (ready, st4) ->
   all_empty st4 /\ Acc g (map snd ready ++ I) st4 /\ NoDup (map fst ready).
 Proof.
-  intros b I st ready st4 Hemp HA HndB H. unfold calc_body in H. bind_ok H st3 H3. rename H into H4.
-  destruct (resolve_phases_pregel _ _ _ _ Hemp HA HndB H3) as (HA3 & Hout3).
-  pose proof (get_ready_acc g Hnd Hend _ _ _ _ _ HA3 (incl_refl _) H4) as HA4.
-  destruct (get_ready_keys g _ _ _ _ (chan_keys_nodup g Hnd Hend) H4) as (Hrn & Hri).
-  destruct (get_ready_empty _ _ _ _ (chan_keys_nodup g Hnd Hend) H4) as (He4 & Ho4).
-  split; [|split; [exact HA4|exact Hrn]].
-  intros y p Hp. destruct (in_dec N.eq_dec y (chan_keys g)) as [Hy|Hy]; [now apply He4|].
-  rewrite (Ho4 y Hy). now apply Hout3.
+  intros b I st ready st4 Hemp HA HndB H.
+  assert (Hin : forall p, In p (map fst b) -> In p (all_keys g)).
+  { intros p Hp. unfold calc_body, resolve_phases in H. bind_ok H st3 H3. bind_ok H3 r1 H1. destruct r1 as [l st1].
+    destruct (phase1_acc g Hnd Hend _ _ _ _ _ HA H1) as (_ & Hel & Hnodes). rewrite <- Hnodes in Hp.
+    apply in_map_iff in Hp as ([[c t] r] & <- & He). rewrite Forall_forall in Hel. destruct (Hel _ He) as (Hc & _).
+    eapply nlist_get_in. exact Hc. }
+  destruct (calc_body_pregel_gen b I st ready st4) as (H1 & H2 & H3 & _); auto.
 Qed.
 
 Lemma calc_next_pregel : forall b st ready st4,
